@@ -31,6 +31,9 @@ structure Expanded where
   prods : List (Name × List (List Name)) := []
   templates : List (Name × Template) := []
   seqSyms : List Name := []
+  /-- keys of `productions` given as a template / symbols the templates generated (`Tmpl` of the LL model) -/
+  tmplKeys : List Name := []
+  genSyms : List Name := []
 
 def prodArgHasDunder : ProdArg → Bool
   | .tuple p => p.any hasDunder
@@ -51,17 +54,20 @@ def expandGrammar (terminals : List Name) : List (Name × GramEntry) → Expande
       match mkListOpts a sym with
       | .error err => .error err
       | .ok o => expandGrammar terminals rest
-          { acc with prods := acc.prods ++ o.genProds, templates := acc.templates ++ [(sym, .list o)] }
+          { acc with prods := acc.prods ++ o.genProds, templates := acc.templates ++ [(sym, .list o)],
+                     tmplKeys := acc.tmplKeys ++ [sym], genSyms := acc.genSyms ++ [o.tailSym] }
     | .map a =>
       match mkMapOpts a sym with
       | .error err => .error err
       | .ok o => expandGrammar terminals rest
-          { acc with prods := acc.prods ++ o.genProds, templates := acc.templates ++ [(sym, .map o)] }
+          { acc with prods := acc.prods ++ o.genProds, templates := acc.templates ++ [(sym, .map o)],
+                     tmplKeys := acc.tmplKeys ++ [sym], genSyms := acc.genSyms ++ [o.kvTailSym, o.kvPairSym] }
     | .seq args =>
       match seqSymbols terminals args with
       | .error err => .error err
       | .ok syms => expandGrammar terminals rest
-          { acc with prods := acc.prods ++ seqGenProds sym syms, seqSyms := acc.seqSyms ++ [sym] }
+          { acc with prods := acc.prods ++ seqGenProds sym syms, seqSyms := acc.seqSyms ++ [sym],
+                     tmplKeys := acc.tmplKeys ++ [sym], genSyms := acc.genSyms ++ [sym ++ seqElemSuffix] }
 
 /-- `prods_map[symbol] = _make_prod_rules_list(...)` with one `sort_n` counter; a repeated key is an assertion -/
 def numberProds : Nat → List (Name × List (List Name)) → LL.Prods Sym → Except Err (LL.Prods Sym)
